@@ -55,6 +55,11 @@ EXPECT = [
      "f3 := {|p, q| [p, q, \\_]}\nf3(10, *[20], **a, **b).p\n[a, b].p\nshow(**b, **a).p\n[a, b].p\n",
      '[1, 2, 3, {"x": 1, "y": 2, "z": 3}]\n[{"x": 1}, {"y": 2}, {"z": 3}]\n[1, 0, 0, {"x": 1}]\n[10, 20, {"x": 1, "y": 2}]\n[{"x": 1}, {"y": 2}]\n'
      '[1, 2, 0, {"x": 1, "y": 2}]\n[{"x": 1}, {"y": 2}]\n'),
+    ("kept_scope_two_levels_sees_reassignment",
+     "rate := 10\nmk := {|| {|| {|x| x * rate}}}\nf := mk()()\na := f(2)\nrate := 25\nb := f(2)\n[a, b].p\n", "[20, 50]\n"),
+    ("kept_scope_in_method", "Shop := {new: m{|pct| .bear({pct: pct})}, tax: m{|x| g := {|| {|| x * .pct}}; g()()}}\ns := Shop.new(10)\n[s.tax(2), s.tax(3)].p\n", "[20, 30]\n"),
+    ("iterator_without_recur_reads_outer", "lim := 1\nit := <{|| yield lim}>.new\nu := it.next\nlim := 2\n[u, it.next].p\n", "[1, 2]\n"),
+    ("inner_assignment_is_local", "outer := {|k| inner := {|| {|| k}}; [inner()(), {|| k := k + 1; inner()()}(), inner()()]}\nouter(5).p\n", "[5, 5, 5]\n"),
     ("anon_chain_in_closure_of_method", "o := {v: 20, m: m{|| g := {|| .v}; g()}}\no.m.p\n", "20\n"),
     ("anon_chain_kwonly_closure", "w := {|x| {|k: 1| .v + k}(k: 10)}\nw({v: 20}).p\n", "30\n"),
     ("anon_chain_two_levels", "z := {|x| {|| {|| .v}()}()}\nz({v: 7}).p\n", "7\n"),
@@ -70,7 +75,7 @@ RELIT = [
     '[["id", v], ["t", v + 1]]', "[[v]]", "[v, [v, [v]]]", "{a: v}", "{a: {b: v}}", "%{v: v}", "%{[v]: v}", "(v:v + 3).A", "(1:v + 2)", "(v:nil:v)",
     "(1:10).A[-v:]", '"abcdef"[-v:]', "[1, 2, 3, 4, 5][:-v]", "[1, 2, 3, 4, 5][::-v]", "[1, 2, 3, 4, 5][-v]", '"s#{v}t#{v + 1}"', "`raw` + v.S",
     "-v", "!v", "[*[v, v]]", "{**{a: v}}", "v if v == 2 else -v", "v.try.+(1).val", "[1, 2]@{|x| x + v}", "[1, 2]$(v){|a, x| a + x}", "'sym.S + v.S",
-    "{|a: v| {|b: a + 1| [a, b]}()}()", "{|| {|k: v| k}}()()",
+    "{|a: v| {|b: a + 1| [a, b]}()}()", "{|| {|k: v| k}}()()", "1.try.{|_| {|k: 10 / (v - 2)| k}()}.A", "1.try.{|_| <{|i, s: 6 / (v - 2)| yield s}>.new(0).next}.A",
 ]
 
 
